@@ -250,6 +250,18 @@ def write_xlsx(desc, dirpath, sheet_order=None):
             else:
                 txt = ref_text(desc, _abs(node), (b, -1))
             wb.defined_names[name] = DefinedName(name, attr_text=txt)
+        links = (desc.get('links') or {}).get(str(b))
+        if links:
+            # an external-link table: [1], [2], ... in formulas are positions in it
+            from openpyxl.workbook.external_link.external import (
+                ExternalLink, ExternalBook, ExternalSheetNames)
+            from openpyxl.packaging.relationship import Relationship
+            for target, sheets in links:
+                ln = ExternalLink(externalBook=ExternalBook(
+                    sheetNames=ExternalSheetNames(sheetName=list(sheets))))
+                ln.file_link = Relationship(type='externalLinkPath', Target=target,
+                                            TargetMode='External')
+                wb._external_links.append(ln)
         path = os.path.join(dirpath, bk['name'])
         os.makedirs(os.path.dirname(path), exist_ok=True)
         wb.save(path)
